@@ -386,11 +386,12 @@ def render(spec, *, cname=None, register=True):
         free = c["attach"] in ("func", "partial")
         fn = make_action(cid, c["group"], c.get("async", False), free)
         qual = f"{cname}_{prov}.{c['name']}" if not free else f"{cname}_free_{c['name']}"
-        _name(fn, c["name"], qual)
+        # free callables may share a __name__ (think lambdas) as long as they sit in different groups / transitions
+        _name(fn, c.get("alias", c["name"]) if free else c["name"], qual)
         if c["attach"] == "partial":
             # functools.partial of a free function (needs an explicit __name__ to be attachable at all)
             fn = partial(fn)
-            fn.__name__ = c["name"]
+            fn.__name__ = c.get("alias", c["name"])
         elif c["attach"] == "bound":
             # bound method of an object that is neither machine, model nor listener, passed as a callable
             ext = ext_objs.setdefault("ext", type(f"{cname}_ext", (), {"__module__": __name__})())
@@ -442,9 +443,14 @@ def render(spec, *, cname=None, register=True):
     sstyle = style.get("states", "attr")
     if sstyle == "enum":
         # States.from_enum(Enum, initial=, final=): names are the ids, values the abstract values
-        E = enum.Enum(f"{cname}_E", {s["id"]: (dec(s["value"]) if "value" in s else s["id"]) for s in spec["states"]})
+        evals = {s["id"]: (dec(s["value"]) if "value" in s else s["id"]) for s in spec["states"]}
+        # an IntEnum when every value is an int: its zero member is falsy, which must not matter to from_enum
+        ecls = enum.IntEnum if all(type(v) is int for v in evals.values()) else enum.Enum
+        E = ecls(f"{cname}_E", evals)
         init = next(E[s["id"]] for s in spec["states"] if s.get("initial"))
-        sts = States.from_enum(E, initial=init, final=[E[s["id"]] for s in spec["states"] if s.get("final")])
+        finals = [E[s["id"]] for s in spec["states"] if s.get("final")]
+        # (a single final member may be passed bare, as in the documentation)
+        sts = States.from_enum(E, initial=init, final=finals[0] if len(finals) == 1 and style.get("bare_final", True) else finals)
         ns["_states"] = sts
         states = [getattr(sts, s["id"]) for s in spec["states"]]
     elif sstyle == "dict":
@@ -512,7 +518,8 @@ def render(spec, *, cname=None, register=True):
             tl = states[t["dst"]].from_(*[states[spec["trans"][k]["src"]] for k in ks], **tkw(ks[0], d.get("ev", "kwstr")))
         elif how == "any":
             tl = states[t["dst"]].from_.any(**tkw(ks[0]))
-            ns[t["events"][0]] = tl
+            ev0 = t["events"][0]
+            ns[ev0] = (ns[ev0] | tl) if ev0 in ns else tl
         else:
             raise HarnessError(f"unknown declaration style {how}")
         for k in ks:
